@@ -129,10 +129,19 @@ def timingH : Handler := fun inp impl => do
   let pathName := match path with | .sse => "sse" | .default => "plain" | .websocket => "ws"
   let some h := handlerFor (newHTTPProxy cell) (ms2ns (optI inp "flush_ms" 1000)) 0 tg path
     | throw "websocket requests are not part of the stream"
-  let r := serveFull roundTrip h.transport requestDeadline st d (ms2ns bodyMs)
+  let warm := (optI inp "warm" 0).toNat
+  let interim := (optI inp "interim" 0).toNat
+  let up : Upstream := { interims := if interim == 0 then [] else [interim], status := st, delay := d, body := ms2ns bodyMs }
+  -- the history: `warm` requests answered at once, then the measured one, all through the same proxy
+  let hist := (List.replicate warm ({ interims := [], status := 200, delay := 0, body := 0 } : Upstream)) ++ [up]
+  let rs := serveHistory roundTrip h.transport requestDeadline hist
+  let some c := rs.getLast? | throw "empty history"
+  let r := c.served
   let m := Json.mkObj [("status", r.status), ("used", usedName tg),
                        ("used_rht", Json.num (JsonNumber.fromInt h.transport.responseHeaderTimeout)),
-                       ("complete", r.complete), ("done_us", Json.num (JsonNumber.fromInt (r.doneAt / 1000)))]
+                       ("complete", r.complete), ("done_us", Json.num (JsonNumber.fromInt (r.doneAt / 1000))),
+                       ("interims", Json.arr (c.interims.map (fun (n : Nat) => Json.num n)).toArray),
+                       ("upstream_saw", rs.length)]
   match impl.getObjValAs? Nat "status" with
   | .error _ =>
     return ({ model := m, agree := false, spec := true, nontrivial := false, tag := "harness-error" } : Verdict).toJson
@@ -144,30 +153,42 @@ def timingH : Handler := fun inp impl => do
     let urht ← getI impl "used_rht"
     let bodyOk := (impl.getObjValAs? Bool "body_ok").toOption.getD (bodyMs == 0)
     let err := (impl.getObjValAs? String "err").toOption.getD ""
+    let saw := (impl.getObjValAs? Nat "upstream_saw").toOption.getD (warm + 1)
+    let warmOk := (impl.getObjValAs? Nat "warm_ok").toOption.getD warm
+    let interims := (impl.getObjValAs? (List Nat) "interims").toOption.getD c.interims
     -- the executable could not be started or reached (ports, machine load): not a case, and not counted
     if err.startsWith "env:" then
       return ({ model := m, agree := true, spec := true, nontrivial := false, tag := "inconclusive-environment" } : Verdict).toJson
     let slow := decide (0 < tms) && decide (tms < dms)
     let expStatus : Nat := if slow then 504 else st
-    let boundUs : Int := (if slow then tms else dms + bodyMs) * 1000
+    -- too late ⇒ 504 within T (+ the slack of the measurement). In time ⇒ "served normally": the upstream's status
+    -- and the complete body; the property does not say how fast, the upper bound only excludes an answer that hangs
+    let boundUs : Int := if slow then tms * 1000 + slack else 2 * (dms + bodyMs) * 1000 + 1000000
+    let floorUs : Int := (if slow then tms else dms + bodyMs) * 1000 - 2000
     -- lower bound: nothing can be complete before min(d + body, T) (2 ms of timer granularity allowed)
-    let inWindow := decide (boundUs - 2000 ≤ el) && decide (el ≤ boundUs + slack)
-    let spec := err.isEmpty && ist == expStatus && inWindow && (slow || bodyOk)
+    let inWindow := decide (floorUs ≤ el) && decide (el ≤ boundUs)
+    let spec := err.isEmpty && ist == expStatus && inWindow && (slow || bodyOk) && warmOk == warm
     let agree := ist == r.status && used == usedName tg && urht == h.transport.responseHeaderTimeout
-                  && (slow || bodyOk == r.complete)
+                  && (slow || bodyOk == r.complete) && saw == rs.length && interims == c.interims
     let cls := if tms ≤ 0 then "no-limit" else if slow then "slow-504"
                else if bodyMs > 0 then "in-time-long-body" else "fast-served"
     let tag :=
-      if spec then (if attempts > 1 then cls ++ "+remeasured" else cls)
+      if spec then
+        (if saw != rs.length then "upstream-saw-request-" ++ toString (saw - warm) ++ "-times"
+         else if interims != c.interims then "interim-not-forwarded"
+         else if attempts > 1 then cls ++ "+remeasured" else cls)
       else if slow && ist == st && decide (d / 1000 - 2000 ≤ el) then "no-timeout-enforced"
-      else if slow && ist != 504 && err.isEmpty && decide (el ≤ boundUs + slack) then "timeout-not-504"
+      else if slow && ist == 504 && decide (el > boundUs) && decide (el ≤ 2 * tms * 1000 + slack) && saw > warm + 1 then "504-after-2T-request-sent-twice"
+      else if slow && ist != 504 && err.isEmpty && decide (el ≤ boundUs) then "timeout-not-504"
       else if !slow && ist == expStatus && !bodyOk then "body-cut-off"
+      else if warmOk != warm then "warm-up-not-served"
       else if !err.isEmpty then "client-error"
-      else if ist == expStatus && decide (el > boundUs + slack) then "late"
+      else if ist == expStatus && decide (el > boundUs) then "late"
       else if !slow && ist == 504 then "timeout-too-early"
       else "other"
+    let hcls := (if warm > 0 then "/warm" else "") ++ (if interim != 0 then "/1xx" else "")
     return ({ model := m, agree := agree, spec := spec, nontrivial := decide (0 < tms),
-              tag := tag ++ "/" ++ usedName tg ++ "/" ++ pathName } : Verdict).toJson
+              tag := tag ++ "/" ++ usedName tg ++ "/" ++ pathName ++ hcls } : Verdict).toJson
 
 def streams : List (String × Handler) := [("c19.fields", fieldsH), ("c19.timing", timingH), ("c19.binary", timingH)]
 end Fabio.Driver.C19
